@@ -65,10 +65,11 @@ def _value_injective(prog, rep, fi, il, kv, exts):
 def _group_names(fi, ol):
     """(groups dict name, group key variable) of the event loop: the dict that is stored into by key inside the loop"""
     for n in ast.walk(ol):
-        if isinstance(n, ast.Assign) and len(n.targets) == 1 and isinstance(n.targets[0], ast.Subscript) and isinstance(n.targets[0].value, ast.Name) and isinstance(n.targets[0].slice, ast.Name):
-            g = n.targets[0].value.id
-            if any(isinstance(d, ast.Assign) and norm(d.value) in ("{}", "dict()") for d in local_defs_all(fi, g)):
-                return g, n.targets[0].slice.id
+        for t in (n.targets if isinstance(n, ast.Assign) else []):
+            if isinstance(t, ast.Subscript) and isinstance(t.value, ast.Name) and isinstance(t.slice, ast.Name):
+                g = t.value.id
+                if any(isinstance(d, ast.Assign) and norm(d.value) in ("{}", "dict()") for d in local_defs_all(fi, g)):
+                    return g, t.slice.id
     return None, None
 
 
@@ -91,6 +92,9 @@ def _key_comprehension(prog, rep, fi, ol):
         return False
     comp = v.args[0]
     gen = comp.generators[0]
+    if norm(gen.iter) != fi.params[1] and (".items()" in norm(gen.iter) or ".data" in norm(gen.iter)):
+        rep.violation("KEY", fi.short, "order of the key's components", f"the group key lists its components in the order of `{norm(gen.iter)[:50]}` (each event's own field order), not in the order of `{fi.params[1]}`: two events with equal values whose data dicts were filled in a different order get different keys and end up in two groups", fi.loc(defs[0]))
+        return True
     if norm(gen.iter) != fi.params[1] or not isinstance(gen.target, ast.Name):
         return False
     kv = gen.target.id
@@ -248,13 +252,50 @@ def _sum_general(prog, rep, fi, ol):
     return True
 
 
+def _sum_elements(prog, rep, fi, ol):
+    """SUM when the events are consumed in runs (itertools.groupby): every element taken from the input -- by an inner
+    `for e in run` or by `next(run)` -- reaches a counting site for ITS duration before the iteration ends"""
+    from ..cfg import cfg_of
+
+    groups, ck = _group_names(fi, ol)
+    it = ol.iter
+    if ck is None or not (isinstance(it, ast.Call) and norm(it.func) in ("groupby", "itertools.groupby") and it.args and norm(it.args[0]) == fi.params[0] and isinstance(ol.target, ast.Tuple) and len(ol.target.elts) == 2 and isinstance(ol.target.elts[1], ast.Name)):
+        return False
+    run = ol.target.elts[1].id
+    grp = {f"{groups}[{ck}]"}
+    for n in ast.walk(ol):
+        if isinstance(n, ast.Assign) and (norm(n.value) in (f"{groups}.get({ck})", f"{groups}[{ck}]") or any(norm(t) == f"{groups}[{ck}]" for t in n.targets)):
+            grp |= {t.id for t in n.targets if isinstance(t, ast.Name)}
+    g = cfg_of(fi)
+    head = g.node_of(ol)
+    elems = []
+    for n in ast.walk(ol):
+        if isinstance(n, ast.Assign) and len(n.targets) == 1 and isinstance(n.targets[0], ast.Name) and norm(n.value) in (f"next({run})",):
+            elems.append((n.targets[0].id, g.node_of(n), head, n))
+        if isinstance(n, ast.For) and n is not ol and norm(n.iter) == run and isinstance(n.target, ast.Name):
+            hn = g.node_of(n)
+            elems.append((n.target.id, hn, hn, n))
+    if not elems:
+        return False
+    for var, start, stop, node in elems:
+        sites = {g.node_of(x) for x in ast.walk(ol) if (isinstance(x, ast.AugAssign) and isinstance(x.op, ast.Add) and isinstance(x.target, ast.Attribute) and x.target.attr == "duration" and norm(x.target.value) in grp and norm(x.value) == f"{var}.duration") or (isinstance(x, ast.Call) and norm(x.func) == "Event" and any(k.arg == "duration" and norm(k.value) == f"{var}.duration" for k in x.keywords))}
+        if isinstance(node, ast.For):
+            starts = [v for v, lab in g.succ[start] if lab and lab[0] == "for" and lab[2] is True]
+        else:
+            starts = [v for v, lab in g.succ[start]]
+        miss = any(stop in (g.reach_avoiding([b], avoid=frozenset(sites), include_start=True)) for b in starts if b not in sites)
+        rep.check(not miss, "SUM", fi.short, f"element `{var}` of a run", "its duration is counted before the iteration ends", f"`{norm(node).splitlines()[0][:60]}` takes an event out of the input, but on some path (e.g. when its group already exists) neither `<group>.duration += {var}.duration` nor a group creation with `duration={var}.duration` runs: that event's duration is lost, so group sums and the total are not conserved when a key combination re-appears in a later run", fi.loc(node))
+    _outputs(rep, fi, ol, groups)
+    return True
+
+
 def duration_conservation(prog, rep, ol):
     rep.rule("SUM", "merge_events_by_keys: every event reaches exactly one of: group creation with duration=event.duration, or group.duration += event.duration; one output event per group; chunk_events_by_key: every key-bearing event either extends the last chunk (subevents.append(event) AND duration += event.duration) or opens a chunk with subevents=[event] and duration=event.duration that is appended")
     fi = prog.func("merge_events_by_keys")
     ev = norm(ol.target)
     ifs = [n for n in ol.body if isinstance(n, ast.If) and isinstance(n.test, ast.Compare) and isinstance(n.test.ops[0], (ast.NotIn, ast.In))]
     if len(ifs) != 1:
-        if not _sum_general(prog, rep, fi, ol):
+        if not _sum_general(prog, rep, fi, ol) and not _sum_elements(prog, rep, fi, ol):
             rep.undecided("SUM", fi.short, "group dispatch", f"{len(ifs)} membership tests on the group dict", fi.loc(ol))
         return
     i = ifs[0]
@@ -303,6 +344,10 @@ def chunk_rule(prog, rep):
     rets = [n for n in fi.node.body if isinstance(n, ast.Return)]
     acc = norm(rets[0].value) if rets else None
     rep.check(norm(lp.iter) == fi.params[0], "SUM", fi.short, "iteration", "over the input in order", f"iterates over `{norm(lp.iter)}`", fi.loc(lp))
+    from ..sqlmodel import local_defs as _ld
+
+    rb_ = [d for d in _ld(fi, fi.params[0]) if not (isinstance(d, ast.Assign) and norm(d.value) in (f"list({fi.params[0]})", f"{fi.params[0]}[:]", f"{fi.params[0]}.copy()"))]
+    rep.check(not rb_, "SUM", fi.short, "the given sequence is chunked as given", f"`{fi.params[0]}` is not re-bound", f"`{norm(rb_[0])[:70] if rb_ else ''}`: the sequence that is chunked is not the caller's sequence in the caller's order, so the sub-events no longer concatenate back to the input", fi.loc(rb_[0]) if rb_ else fi.loc())
     # an event is left out of every chunk only when it does not bear the key
     from ..cfg import cfg_of, membership
 
